@@ -21,8 +21,7 @@ INS = ['{', '}', ';', '=', '(', ')', '[', ']', 'in', 'let', '"', "''", '${', ':'
 G1 = DocGen2(R); G2 = PkgGen(R)
 def texts():
     cells = [p for _, p, _ in iter_cells()]
-    step = max(1, len(cells) * 3 // max(N, 1))
-    for p in cells[seed % step::step]: yield 'matrix-cell', p
+    for p in cells: yield 'matrix-cell', p            # every cell: the matrix is cheap
     for k, w in FAM.items():
         for leafname, leaf in LEAVES.items():
             s = leaf
